@@ -201,7 +201,20 @@ def run_case(a):
             if label == "visualisation-switched-off":
                 ra = plain_run(seed * 7 + 1, viz=True)
                 if ra.rc != 0 or not os.path.exists(os.path.join(out, "dependency-graph.txt")):
+                    if ra.rc == 0:
+                        viol.append(("C14 visualisation-requested-but-graph-files-absent path=%s" % path, "a successful run with dependency visualisation on left no dependency-graph.txt", wit))
                     continue
+                # with the visualisation still on and nothing changed, a further run is a no-op as well (its two files included)
+                before = fsmon.snapshot(out)
+                time.sleep(0.002)
+                rv = plain_run(seed * 7 + 9, viz=True)
+                st["second_runs"] += 1
+                st["reruns_with_visualisation_on"] = st.get("reruns_with_visualisation_on", 0) + 1
+                d = fsmon.diff(before, fsmon.snapshot(out))
+                changed = [p2 for p2 in d["created"] + d["deleted"] + d["modified"] + d["touched"] if p2 != ".write_test"]
+                if rv.rc == 0 and changed:
+                    viol.append(("C14 rerun-touches-output path=%s visualisation=on" % path,
+                                 "unchanged re-run with dependency visualisation on changed %s" % {k2: v2 for k2, v2 in d.items() if v2}, wit))
             else:
                 rendered = compound.render(files)
                 if not any(".emit(" in t or ".emit_to(" in t for (_, t) in rendered) or not os.path.exists(os.path.join(out, "events.ts")):
